@@ -381,6 +381,32 @@ def explore(ctx):
         cli_checked += 1
         if a.stdout != c.stdout or b.stdout != c.stdout:
             failures.append({'kind': 'spec', 'what': '--file and stdin give different results', 'payload': {'query': q}})
+    # an EMPTY file and a file that is not a regular file (a named pipe): still the same as stdin
+    epath = os.path.join(tmpd, 'empty.json')
+    open(epath, 'wb').close()
+    for q in ('* | json | count', '* | json | count by k', '* | json'):
+        a = subprocess.run([aglib.AGRIND, q, '-o', 'json', '--file', epath], stdin=subprocess.DEVNULL, stdout=subprocess.PIPE, stderr=subprocess.PIPE, env=aglib.ENV)
+        c = subprocess.run([aglib.AGRIND, q, '-o', 'json'], input=b'', stdout=subprocess.PIPE, stderr=subprocess.PIPE, env=aglib.ENV)
+        cli_checked += 1
+        if a.stdout != c.stdout or a.returncode != c.returncode:
+            failures.append({'kind': 'spec', 'what': '--file <empty file> and empty stdin give different results: %r vs %r' % (a.stdout[:60], c.stdout[:60]), 'payload': {'query': q, 'file': 'empty'}})
+    ffpath = os.path.join(tmpd, 'in.fifo')
+    os.mkfifo(ffpath)
+    import threading
+    for q in ('* | json | count by k', '* | json | fields id'):
+        def writer():
+            with open(ffpath, 'wb') as fh:
+                fh.write(inp)
+        tw = threading.Thread(target=writer, daemon=True)
+        tw.start()
+        a = subprocess.run([aglib.AGRIND, q, '-o', 'json', '--file', ffpath], stdin=subprocess.DEVNULL, stdout=subprocess.PIPE, stderr=subprocess.PIPE, env=aglib.ENV, timeout=30)
+        tw.join(5)
+        c = subprocess.run([aglib.AGRIND, q, '-o', 'json'], input=inp, stdout=subprocess.PIPE, stderr=subprocess.PIPE, env=aglib.ENV)
+        cli_checked += 1
+        if a.stdout != c.stdout or a.returncode != c.returncode:
+            failures.append({'kind': 'spec', 'what': '--file <named pipe> and stdin give different results', 'payload': {'query': q, 'file': 'fifo'}})
+    os.remove(epath)
+    os.remove(ffpath)
     os.remove(fpath)
     os.rmdir(tmpd)
     cov = {
